@@ -12,7 +12,8 @@ class RecordingRemote:
     """stands for a SwitcherBreezeRemote: records the arguments of build_command / build_swing_command and returns a real
     SwitcherBreezeCommand whose text is a blob of symbolic length (the real class computes the length field)"""
 
-    def __init__(self, path, separated, ncalls_hint=2):
+    def __init__(self, path, separated, ncalls_hint=2, text_len=None):
+        self.text_len = text_len
         self._separated_swing_command = separated
         self.separated_swing_command = separated
         self.calls = []
@@ -22,6 +23,20 @@ class RecordingRemote:
         from harness import apiops as A
 
         remotes = loader.load("api.remotes")
+        if self.text_len is not None:
+            # a text of concrete length: every character a free printable ASCII byte, '|' after the first one
+            n = self.text_len
+            units = []
+            for k in range(n):
+                if k == 1 or n == 1:
+                    units.append(124)
+                    continue
+                v = self.path.fresh_bv("%s_c%d" % (tag, k), 8)
+                self.path.constrain(z3.And(z3.UGE(v, 48), z3.ULE(v, 122)))
+                units.append(U8(v, True))
+            text = SymSeq("str", units)
+            cmd = remotes.SwitcherBreezeCommand("00000000" + stubs.s_hexlify(text.m_encode()).m_decode())
+            return cmd, text
         para, n1 = A.fresh_blob(self.path, tag + "_para", 0, 1000)
         code, n2 = A.fresh_blob(self.path, tag + "_hex", 0, 1000)
         text = SymSeq("str", [para, 124, code])
@@ -58,7 +73,7 @@ def build_control_breeze(path, mod, case, run):
     given = case.get("given")
     if given is None:
         given = {"all": [1, 1, 1, 1, 1], "swing_only": [0, 0, 0, 0, 1], "state_only": [1, 0, 0, 0, 0], "none": [0, 0, 0, 0, 0]}[req]
-    remote = RecordingRemote(path, bool(case.get("separated")))
+    remote = RecordingRemote(path, bool(case.get("separated")), text_len=case.get("ir_len"))
     state, si = _choice(path, "rq_state", [dev.DeviceState.ON, dev.DeviceState.OFF], given[0])
     mode, mi = _choice(path, "rq_mode", list(dev.ThermostatMode), given[1])
     target = A.fresh_int(path, "rq_target", 1, 60) if given[2] else 0
@@ -107,7 +122,10 @@ def reply_plan(path, case, run, tag):
         run.session = SymSeq("bytes", [])
     run.extra["state_reply"] = None
     if actionable:
-        st = thermostat_reply(path, tag + "th") if fault != "state" else b""
+        if case.get("simple_state"):
+            st = bytes(76) + bytes([0xE6, 0x00, 0x01, 0x04, 0x18, 0x10]) + bytes(18) if fault != "state" else b""
+        else:
+            st = thermostat_reply(path, tag + "th") if fault != "state" else b""
         run.extra["state_reply"] = st
         run.replies.append(st)
         run.replies.append(A.generic_reply(path, tag + "cmdr") if fault != "command" else b"")
@@ -120,7 +138,7 @@ def remote_json(run, m):
     out = {"separated": bool(remote._separated_swing_command), "main": None, "swing": None}
     for c in remote.calls:
         text = C.ev_seq(m, c["text"])
-        para, code = text.split("|", 1)
+        para, code = text.split("|", 1) if "|" in text else (text, "")
         if c["fn"] == "build_command":
             out["main"] = [para, code]
         else:
